@@ -44,6 +44,9 @@ class Executor:
 
         self._titles = self._executed_instance.get_titles()
         self._sheets_size = self._executed_instance.get_sheets_size()
+        # a new executed instance starts without overrides
+        self._cells = {}
+        self._cells_have_been_changed = False
 
         return self
 
